@@ -167,6 +167,22 @@ pub fn work(ctx: &Ctx, rep: &mut Report, g1: (usize, usize), g2_k: (usize, usize
         }
         rep.count("g3s_scenario_histories", done);
     }
+    // GX: one dimension at or beyond 2^16
+    {
+        let per = ctx.scale(12, 120);
+        let mut done = 0u64;
+        let sizes: Vec<(usize, usize)> = GX_TALL.iter().chain(GX_WIDE.iter()).copied().collect();
+        for u in ctx.units(sizes.len() * per) {
+            let mut r = Rng::derive(ctx.seed, &[ph, 9, u as u64]);
+            let h = gx_history(prop, &mut r, sizes[u % sizes.len()]);
+            if u == 3 {
+                rep.sample(format!("GX (one dimension >= 2^16): {}", h.brief()));
+            }
+            run_one(prop, &h, rep);
+            done += 1;
+        }
+        rep.count("gx_extreme_dimension_histories", done);
+    }
     // G3w: command, perturbation, same command again (stale caches / fast paths)
     {
         let sizes: &[(usize, usize)] = if ctx.thorough { &[(4, 3), (1, 1), (6, 5), (2, 1), (1, 4), (9, 2), (3, 2)] } else { &[(4, 3), (1, 1), (6, 5)] };
